@@ -41,6 +41,21 @@ def timed_impl(impl, line):
         signal.setitimer(signal.ITIMER_REAL, 0)
         signal.signal(signal.SIGALRM, old)
 
+def timed_call(f, limit, *args):
+    """f(*args) under a time limit; raises CallTimeout (oracles call into the implementation as well)"""
+    import signal, threading
+    if threading.current_thread() is not threading.main_thread():
+        return f(*args)
+    def onalarm(signum, frame):
+        raise CallTimeout()
+    old = signal.signal(signal.SIGALRM, onalarm)
+    signal.setitimer(signal.ITIMER_REAL, limit)
+    try:
+        return f(*args)
+    finally:
+        signal.setitimer(signal.ITIMER_REAL, 0)
+        signal.signal(signal.SIGALRM, old)
+
 def _shrink(stream, line, still_bad, budget=300):
     if not stream.shrink:
         return line
@@ -66,10 +81,22 @@ def run_streams(res: Result, streams: list[Stream], broken, known_match=None, ma
     divergences, failures = [], []
     res.cov.setdefault("streams", {})
     for st in streams:
+        if not getattr(st, "_timed", False):     # every later use (shrinking, replays of the reduced line) is under the limit too
+            st.impl = (lambda f: (lambda l: timed_impl(f, l)))(st.impl)
+            if st.oracle:
+                def timed_oracle(l, o, f=st.oracle):
+                    try:
+                        return timed_call(f, 20 * call_limit(LINE_LIMIT_S), l, o)
+                    except CallTimeout:
+                        TIMEOUTS["seen"] += 1
+                        return "the evaluation of the property on this reply called the implementation and did not return (Timeout)"
+                st.oracle = timed_oracle
+            st._timed = True
+    for st in streams:
         t0 = time.time()
         impl_out = []
         for l in st.lines:
-            impl_out.append(timed_impl(st.impl, l))
+            impl_out.append(st.impl(l))
         model_out = None
         if model_ok and st.model:
             try:
